@@ -142,6 +142,7 @@ namespace ratio
                                 adaptations.at(atm).bounds.emplace(itm, new atom_adaptation::var_bounds{**vals.begin()});
                             }
                         }
+                started.insert(starting_atms->second.cbegin(), starting_atms->second.cend());
                 // we notify that some atoms are starting their execution..
                 for (const auto &l : listeners)
                     l->start(starting_atms->second);
@@ -197,6 +198,7 @@ namespace ratio
                             }
                         }
                     }
+                ended.insert(ending_atms->second.cbegin(), ending_atms->second.cend());
                 // we notify that some atoms are ending their execution..
                 for (const auto &l : listeners)
                     l->end(ending_atms->second);
@@ -303,24 +305,24 @@ namespace ratio
                 { // the atom is active..
                     if (slv.is_impulse(c_atm))
                     {
+                        if (ended.count(&c_atm))
+                            continue; // this atom has already been executed..
                         arith_expr at_expr = atm->get(RATIO_AT);
                         inf_rational at = slv.arith_value(at_expr);
-                        if (at < current_time)
-                            continue; // this atom is already in the past..
                         s_atms[at].insert(&c_atm);
                         e_atms[at].insert(&c_atm);
                         pulses.insert(at);
                     }
                     else if (slv.is_interval(c_atm))
                     {
+                        if (ended.count(&c_atm))
+                            continue; // this atom has already been executed..
                         arith_expr s_expr = atm->get(RATIO_START);
                         arith_expr e_expr = atm->get(RATIO_END);
                         inf_rational end = slv.arith_value(e_expr);
-                        if (end < current_time)
-                            continue; // this atom is already in the past..
                         inf_rational start = slv.arith_value(s_expr);
-                        if (start >= current_time)
-                        {
+                        if (!started.count(&c_atm))
+                        { // this atom has not been started yet..
                             s_atms[start].insert(&c_atm);
                             pulses.insert(start);
                         }
